@@ -347,6 +347,15 @@ class Interp:
             if any(v is U for v in a_) or any(v is U for v in kw_.values()):
                 return U
             return native.fn(*a_, **kw_)
+        if isinstance(e.func, ast.Attribute) and e.func.attr == "sort" and e.keywords and not e.args:
+            # xs.sort(key=lambda .., reverse=..): sorted() on the same arguments, stored back in place
+            lst = self.ev(e.func.value)
+            if isinstance(lst, list):
+                r = self._call(ast.Call(func=ast.Name(id="sorted", ctx=ast.Load()), args=[e.func.value], keywords=e.keywords))
+                if isinstance(r, list):
+                    lst[:] = r
+                    return None
+            return U
         if e.keywords and not (isinstance(e.func, ast.Name) and (e.func.id in ("sorted", "dict", "max", "min") or e.func.id in MODELS or
                                                                  e.func.id in self.funcs)):
             return U
@@ -444,6 +453,7 @@ class Interp:
                       "enumerate": lambda *a: list(enumerate(*a)), "zip": lambda *a: list(zip(*a)), "range": lambda *a: list(range(*a)),
                       "int": int, "float": float, "str": str, "bool": bool, "abs": abs, "min": min, "max": max, "sum": sum,
                       "any": any, "all": all, "round": round, "divmod": divmod, "frozenset": frozenset,
+                      "hex": hex, "bin": bin, "oct": oct, "ord": ord, "chr": chr,
                       "combinations": lambda xs, r: list(__import__("itertools").combinations(list(xs), r))}
             if fn == "len" and len(args) == 1 and isinstance(args[0], NS):
                 return args[0].get("__len__", U)
